@@ -5,6 +5,7 @@ import ast
 from .core import (AnalysisError, dotted, norm, walk_local, const_int,
                    enclosing_stmt_map, stmts_of, block_always_raises,
                    calls_in, call_name)
+from .core import kwarg as kwarg_
 from .dataflow import local_defs, names_in, closure_names, holds
 
 
@@ -119,29 +120,48 @@ def _under_not(root, target):
 # ---------------------------------------------------------------------
 # O2: 24-bit field guard in the compressed_segmentation encoder
 # ---------------------------------------------------------------------
+def _has_24bit_test(test):
+    consts = {const_int(x) for x in walk_local(test)}
+    txt = norm(test)
+    return 0xFFFFFF in consts or 1 << 24 in consts or "<< 24" in txt \
+        or "2 ** 24" in txt or ">> 24" in txt
+
+
 def cseg_field_guard(repo, col):
     rule = "E-ORDER.field-guard"
-    fn = repo.func("_compressed_segmentation", "_encode_channel")
-    cfg = fn.cfg()
-    owner = enclosing_stmt_map(fn.node)
-    packs = []
-    for c in calls_in(fn.node):
-        if (call_name(c) or "").endswith("pack_into") or \
-                (call_name(c) or "").endswith("struct.pack"):
+    from .core import helper_closure
+    top = repo.func("_compressed_segmentation", "_encode_channel")
+    fns = helper_closure(top)
+    found = []          # (function, call, offset expr, bits expr)
+    for fn in fns:
+        for c in calls_in(fn.node):
+            nm = call_name(c) or ""
+            is_pack = nm.endswith("pack_into") or nm.endswith("struct.pack") \
+                or (isinstance(c.func, ast.Attribute)
+                    and c.func.attr in ("pack", "pack_into"))
+            if not is_pack:
+                continue
             for a in c.args:
                 for b in walk_local(a):
                     if isinstance(b, ast.BinOp) and isinstance(b.op, ast.BitOr):
                         sides = [b.left, b.right]
-                        sh = [s for s in sides if isinstance(s, ast.BinOp)
-                              and isinstance(s.op, ast.LShift)
-                              and const_int(s.right) == 24]
-                        other = [s for s in sides if s not in sh]
+                        sh = [s_ for s_ in sides if isinstance(s_, ast.BinOp)
+                              and isinstance(s_.op, ast.LShift)
+                              and const_int(s_.right) == 24]
+                        other = [s_ for s_ in sides if s_ not in sh]
                         if sh and other:
-                            packs.append((c, other[0], sh[0].left))
-    if not packs:
-        raise AnalysisError("anchor vanished: packing of "
-                            "(offset | bits << 24) in %s" % fn.key)
-    for call, offset_expr, bits_expr in packs:
+                            found.append((fn, c, other[0], sh[0].left))
+    if not found:
+        col.add(rule, top, "offset | (bits << 24)", True, "packing of the "
+                "first header word not recognised in %s or its helpers"
+                % top.key, undecided=True)
+        return
+    any_guard = any(
+        isinstance(st, (ast.If, ast.Assert)) and _has_24bit_test(st.test)
+        for fn in fns for st in stmts_of(fn.node))
+    for fn, call, offset_expr, bits_expr in found:
+        cfg = fn.cfg()
+        owner = enclosing_stmt_map(fn.node)
         target = _cfg_node_of_expr(fn, call, owner)
         onames = names_in(offset_expr)
         through = []
@@ -151,21 +171,20 @@ def cseg_field_guard(repo, col):
             test = n.ast.test
             if not (names_in(test) & onames):
                 continue
-            consts = {const_int(x) for x in walk_local(test)}
-            txt = norm(test)
-            if 0xFFFFFF in consts or 1 << 24 in consts or "<< 24" in txt \
-                    or "2 ** 24" in txt or ">> 24" in txt:
+            if _has_24bit_test(test):
                 if isinstance(n.ast, ast.Assert) or \
                         block_always_raises(getattr(n.ast, "body", [])):
                     through.append(n)
         ok = bool(through) and cfg.every_path_passes(cfg.entry, target,
                                                      through)
+        # the guard may sit in the caller of a helper that only packs
+        und = not ok and any_guard and fn is not top
         col.add(rule, fn, "%s | (%s << 24)" % (norm(offset_expr),
-                                                norm(bits_expr)), ok,
+                                                norm(bits_expr)), ok or und,
                 "the 24-bit table offset is range-checked before packing"
                 if ok else "lookup-table offset is packed into a 24-bit field "
                 "without a dominating range check: offsets >= 2**24 would "
-                "corrupt the bit-width field", node=call)
+                "corrupt the bit-width field", node=call, undecided=und)
 
 
 # ---------------------------------------------------------------------
@@ -249,7 +268,16 @@ def pyramid_guards(repo, col):
                     for nm in names_in(sub.iter):
                         tags |= src.get(nm, set())
             if required <= tags:
-                res.append(n)
+                # a per-axis guard written as a loop over the (three) axes:
+                # the loop as a whole is the guard
+                holder = n
+                for lp in stmts_of(fn.node):
+                    if isinstance(lp, ast.For) and n.ast in lp.body and \
+                            lp is not loop:
+                        ln_ = cfg.node_of(lp)
+                        if ln_ is not None:
+                            holder = ln_
+                res.append(holder)
         return res
 
     for label, required, why in (
@@ -275,6 +303,9 @@ def pyramid_guards(repo, col):
     # the compatibility guard must test both conditions per axis: exact
     # halving of the old chunk and new in {half, 2*half}
     g = guard_nodes({("old", "chunk_sizes"), ("new", "chunk_sizes")})
+    if g and isinstance(g[0].ast, ast.For):
+        inner = [x for x in g[0].ast.body if isinstance(x, ast.If)]
+        g = [type("N", (), {"ast": inner[0]})()] if inner else []
     if g:
         test = g[0].ast.test
         txt = norm(test)
@@ -300,28 +331,61 @@ def pyramid_guards(repo, col):
 def level_driver(repo, col):
     rule = "E-ORDER.level-driver"
     fn = repo.func("dyadic_pyramid", "compute_dyadic_scales")
-    loops = [s for s in stmts_of(fn.node) if isinstance(s, ast.For)]
+    loops = [s for s in stmts_of(fn.node)
+             if isinstance(s, (ast.For, ast.While)) and any(
+                 (call_name(c) or "").endswith("compute_dyadic_downscaling")
+                 for c in calls_in(s))]
     if not loops:
-        raise AnalysisError("anchor vanished: level loop in %s" % fn.key)
+        col.add(rule, fn, "level loop", True, "no loop calling "
+                "compute_dyadic_downscaling in %s" % fn.key, undecided=True)
+        return
     loop = loops[0]
-    it = norm(loop.iter)
     from .intexpr import canon, NotInt
+    from .dataflow import single_defs, expand
+    ltab = single_defs(fn.node)
     ok_range, und_range = False, True
-    if isinstance(loop.iter, ast.Call) and call_name(loop.iter) == "range" \
-            and len(loop.iter.args) == 1:
-        try:
-            c = canon(loop.iter.args[0])
-        except NotInt:
-            c = None
-        if c and "len(" in c and "scales" in c:
-            und_range = False
-            ok_range = c.startswith("-1 + len(")
+    lv = None
+    if isinstance(loop, ast.For):
+        it = norm(loop.iter)
+        lv = loop.target.id if isinstance(loop.target, ast.Name) else None
+        if isinstance(loop.iter, ast.Call) and \
+                call_name(loop.iter) == "range" and len(loop.iter.args) == 1:
+            try:
+                c = canon(expand(loop.iter.args[0], ltab))
+            except NotInt:
+                c = None
+            if c and "len(" in c and "scales" in c:
+                und_range = False
+                ok_range = c.startswith("-1 + len(")
+    else:
+        # while i < len(scales) - 1: ...; i += 1   (i starts at 0)
+        it = "while " + norm(loop.test)
+        for a in holds(loop.test, True):
+            for b in (a, a.flipped()):
+                if b.op == "<" and isinstance(b.left, ast.Name):
+                    try:
+                        c = canon(expand(b.right, ltab))
+                    except NotInt:
+                        c = None
+                    i_ = b.left.id
+                    starts0 = any(const_int(d.value) == 0
+                                  for d in local_defs(fn.node).get(i_, [])
+                                  if d.value is not None and d.kind == "assign")
+                    steps1 = any(isinstance(x, ast.AugAssign) and
+                                 isinstance(x.op, ast.Add) and
+                                 norm(x.target) == i_ and
+                                 const_int(x.value) == 1
+                                 for x in ast.walk(loop))
+                    if c and "len(" in c and "scales" in c and starts0 \
+                            and steps1:
+                        und_range = False
+                        ok_range = c.startswith("-1 + len(")
+                        lv = i_
     col.add(rule, fn, "for i in %s" % it, ok_range,
             "covers every transition i -> i+1" if ok_range else
             "level loop does not cover range(len(scales) - 1): some scale "
             "transitions are skipped or out of range", node=loop,
             undecided=und_range)
-    lv = loop.target.id if isinstance(loop.target, ast.Name) else None
     calls = [c for c in calls_in(loop)
              if (call_name(c) or "").endswith("compute_dyadic_downscaling")]
     ok_call = bool(calls) and len(calls[0].args) >= 2 and \
@@ -335,17 +399,31 @@ def level_driver(repo, col):
             undecided=not ok_call and und_call)
     if calls:
         c = calls[0]
-        same_io = len(c.args) >= 5 and norm(c.args[3]) == norm(c.args[4])
+        rd_ = kwarg_(c, "chunk_reader") or (c.args[3] if len(c.args) > 3
+                                            else None)
+        wr_ = kwarg_(c, "chunk_writer") or (c.args[4] if len(c.args) > 4
+                                            else None)
+        same_io = rd_ is not None and wr_ is not None and \
+            norm(rd_) == norm(wr_)
         col.add(rule, fn, "reader is writer", same_io,
                 "level i+1 is read back through the object that wrote it"
                 if same_io else "reader and writer differ", node=c,
                 nontrivial=False)
     # close between levels
     closes = []
+    via_helper = False
+    from .core import resolve_local_call
     for st in loop.body:
         for c in calls_in(st):
             if _attr_call(c, "close") and "accessor" in norm(c.func.value):
                 closes.append((st, c))
+            else:
+                h = resolve_local_call(fn, c)
+                if h is not None and any(_attr_call(x, "close")
+                                         for x in calls_in(h.node)) and any(
+                        "accessor" in norm(a_) for a_ in c.args):
+                    closes.append((st, c))
+                    via_helper = True
     ok_close = False
     for st, c in closes:
         if isinstance(st, ast.If):
@@ -360,7 +438,8 @@ def level_driver(repo, col):
         idx_call = max(i for i, s in enumerate(loop.body)
                        if any(x is calls[0] for x in calls_in(s)))
         idx_close = max(i for i, s in enumerate(loop.body)
-                        if any(_attr_call(x, "close") for x in calls_in(s)))
+                        if any(x is cc for _, cc in closes
+                               for x in calls_in(s)))
         ok_close = idx_close > idx_call
     other_calls = False
     if calls and not closes:
@@ -408,6 +487,15 @@ def _closing_loop(fn, container_attr):
         derives = ("self.%s" % container_attr) in txt or any(
             ("self.%s" % container_attr) in norm(d.value)
             for n in it_names for d in defs.get(n, []) if d.value is not None)
+        if not derives:
+            # a list filled element by element from the container
+            for c in calls_in(fn.node):
+                if isinstance(c.func, ast.Attribute) and \
+                        c.func.attr in ("append", "extend", "add") and \
+                        isinstance(c.func.value, ast.Name) and \
+                        c.func.value.id in it_names and c.args and \
+                        ("self.%s" % container_attr) in norm(c.args[0]):
+                    derives = True
         if not derives or not isinstance(st.target, ast.Name):
             continue
         v = st.target.id
@@ -443,11 +531,20 @@ def flush_chain(repo, col):
         fn = repo.func("sharded_file_accessor", qn, inline=True)
         loop = _closing_loop(fn, attr)
         ok = loop is not None
-        col.add(rule, fn, "for x in self.%s: x.close()" % attr, ok,
+        # a loop that closes *something* but is not recognised as ranging
+        # over the whole container is not evidence of a defect
+        some_close_loop = any(
+            isinstance(l_, (ast.For, ast.While)) and any(
+                isinstance(s_, ast.Expr) and isinstance(s_.value, ast.Call)
+                and _attr_call(s_.value, "close") for s_ in l_.body)
+            for l_ in stmts_of(fn.node))
+        col.add(rule, fn, "for x in self.%s: x.close()" % attr,
+                ok or some_close_loop,
                 "every element of self.%s is closed unconditionally" % attr
                 if ok else "no unconditional loop closes every element of "
                 "self.%s: buffered chunks of some scale / shard / minishard "
-                "are never written" % attr, node=loop)
+                "are never written" % attr, node=loop,
+                undecided=not ok and some_close_loop)
         # filtered iteration (comprehension with an `if`) drops elements
         if loop is not None:
             filt = any(isinstance(n, ast.comprehension) and n.ifs
@@ -646,16 +743,34 @@ def minishard_drain(repo, col):
     fn = repo.func("sharded_file_accessor", "MiniShard.close")
     cfg = fn.cfg()
     drains = []
+    other_form = False
     for n in cfg.nodes:
         if n.kind == "loop" and isinstance(n.ast, ast.While):
             if _means_nonempty(n.ast.test, "self." + bufattr):
                 drains.append(n)
+            elif isinstance(n.ast.test, ast.Constant) and n.ast.test.value:
+                # `while True: ...; if <buffer empty>: return/break; ...`
+                for x in ast.walk(n.ast):
+                    if isinstance(x, ast.If) and x.body and isinstance(
+                            x.body[-1], (ast.Return, ast.Break)) and \
+                            _means_nonempty(ast.UnaryOp(op=ast.Not(),
+                                                        operand=x.test),
+                                            "self." + bufattr):
+                        drains.append(n)
+                        break
+                else:
+                    if ("self." + bufattr) in norm(n.ast):
+                        other_form = True
+            elif ("self." + bufattr) in norm(n.ast.test):
+                other_form = True
     ok = bool(drains) and cfg.every_path_passes(cfg.entry, cfg.exit, drains)
-    col.add(rule, fn, "while len(self._chunk_buffer) > 0", ok,
+    col.add(rule, fn, "while len(self._chunk_buffer) > 0",
+            ok or (not drains and other_form),
             "close() returns only once the reorder buffer is empty" if ok else
             "close() can return while chunks are still parked in the reorder "
             "buffer: they never reach the shard file",
-            node=drains[0].ast if drains else None)
+            node=drains[0].ast if drains else None,
+            undecided=not ok and not drains and other_form)
     if drains:
         body_calls = [call_name(c) or "" for c in calls_in(drains[0].ast)]
         ok2 = any(b.endswith("self.append") for b in body_calls) and \
